@@ -9,6 +9,7 @@
 package runtime
 
 //@ func NewSlice3
+//@ params base eltSize cap i j k
 //@ props C03 C05
 //@ requires cap >= 0
 //@ panics_iff C03 bounds: !(0 <= i && i <= j && j <= k && k <= cap)
@@ -18,6 +19,7 @@ package runtime
 //@ modifies nothing
 
 //@ func StringSlice
+//@ params base i j
 //@ props C03 C05
 //@ requires base.len >= 0
 //@ panics_iff C03 bounds: !(0 <= i && i <= j && j <= base.len)
@@ -37,6 +39,7 @@ package runtime
 //@ panics_iff C03 always: true
 
 //@ func MakeSlice
+//@ params len cap etSize
 //@ props C03 C05
 //@ inline panicmakeslicelen panicmakeslicecap
 //@ requires etSize >= 0
@@ -48,6 +51,7 @@ package runtime
 //@ modifies nothing
 
 //@ func nextslicecap
+//@ params newLen oldCap
 //@ props C05
 //@ requires 0 <= oldCap && oldCap < newLen && newLen < 1<<61
 //@ ensures C05 ge: result >= newLen && result > 0
@@ -57,6 +61,7 @@ package runtime
 //@ modifies nothing
 
 //@ func GrowSlice
+//@ params src num etSize
 //@ props C05
 //@ arith int
 //@ requires etSize > 0 && etSize < 1<<16 && num >= 0 && num < 1<<28
@@ -71,6 +76,7 @@ package runtime
 //@ modifies nothing
 
 //@ func SliceCopy
+//@ params dst data num etSize
 //@ props C05
 //@ arith int
 //@ requires etSize >= 0 && etSize < 1<<16 && num >= 0 && num <= 1<<30 && 0 <= dst.len && dst.len <= 1<<30
@@ -80,6 +86,7 @@ package runtime
 //@ modifies bytes(dst.data, min(dst.len, num)*etSize)
 
 //@ func SliceAppend
+//@ params src data num etSize
 //@ props C05
 //@ arith int
 //@ requires etSize >= 0 && etSize < 1<<16 && num >= 0 && num < 1<<28
@@ -96,6 +103,7 @@ package runtime
 // Unicode Table 3-6 / 3-7)
 
 //@ func decoderune
+//@ params s k
 //@ props C05
 //@ requires k >= 0
 //@ ensures C05 past-end: k >= len(s) ==> r == 0xFFFD && pos == k + 1
@@ -105,6 +113,7 @@ package runtime
 //@ modifies nothing
 
 //@ func encoderune
+//@ params p r
 //@ props C05
 //@ requires len(p) >= utf8_enc_len(r)
 //@ ensures C05 count: result == utf8_enc_len(r)
@@ -118,6 +127,7 @@ package runtime
 // z_string.go
 
 //@ func StringCat
+//@ params a b
 //@ props C05
 //@ arith int
 //@ requires a.len >= 0 && b.len >= 0 && a.len < 1<<46 && b.len < 1<<46
@@ -129,6 +139,7 @@ package runtime
 //@ modifies nothing
 
 //@ func StringEqual
+//@ params x y
 //@ props C05
 //@ requires x.len >= 0 && y.len >= 0 && valid(x.data, x.len) && valid(y.data, y.len)
 //@ ensures C05 eq: result <==> (x.len == y.len && forall k int :: 0 <= k && k < x.len ==> x[k] == y[k])
@@ -137,6 +148,7 @@ package runtime
 //@ modifies nothing
 
 //@ func StringLess
+//@ params x y
 //@ props C05
 //@ requires x.len >= 0 && y.len >= 0 && valid(x.data, x.len) && valid(y.data, y.len)
 //@ ensures C05 lex: result <==> ((exists j int :: 0 <= j && j < min(x.len, y.len) && x[j] < y[j] && forall k int :: 0 <= k && k < j ==> x[k] == y[k]) || (x.len < y.len && forall k int :: 0 <= k && k < x.len ==> x[k] == y[k]))
@@ -145,6 +157,7 @@ package runtime
 //@ modifies nothing
 
 //@ func StringIterNext
+//@ params it
 //@ props C05
 //@ requires it != nil && it.pos >= 0
 //@ ensures C05 end: old(it.pos) >= len(it.s) ==> !ok && k == 0 && v == 0 && it.pos == old(it.pos)
@@ -153,6 +166,7 @@ package runtime
 //@ modifies it.pos
 
 //@ func StringFrom
+//@ params data n
 //@ props C05
 //@ arith int
 //@ requires n >= 0 && n < 1<<46 && valid(data, n)
@@ -162,6 +176,7 @@ package runtime
 //@ modifies nothing
 
 //@ func StringFromBytes
+//@ params b
 //@ props C05
 //@ arith int
 //@ requires b.len >= 0 && b.len < 1<<46 && valid(b.data, b.len)
@@ -170,6 +185,7 @@ package runtime
 //@ modifies nothing
 
 //@ func StringToBytes
+//@ params s
 //@ props C05
 //@ arith int
 //@ requires s.len >= 0 && s.len < 1<<45 && valid(s.data, s.len)
@@ -179,6 +195,7 @@ package runtime
 //@ modifies nothing
 
 //@ func StringFromRune
+//@ params r
 //@ props C05
 //@ ensures C05 len: s.len == utf8_enc_len(r)
 //@ ensures C05 bytes: forall j int :: 0 <= j && j < s.len ==> s[j] == utf8_enc_byte(r, j)
@@ -186,6 +203,7 @@ package runtime
 //@ modifies nothing
 
 //@ func StringFromInt64
+//@ params r
 //@ props C05
 //@ let c = ite(r < 0 || r > 0x10FFFF, rune(0xFFFD), rune(r))
 //@ ensures C05 len: result.len == utf8_enc_len(c)
@@ -193,6 +211,7 @@ package runtime
 //@ modifies nothing
 
 //@ func StringFromUint64
+//@ params r
 //@ props C05
 //@ let c = ite(r > 0x10FFFF, rune(0xFFFD), rune(r))
 //@ ensures C05 len: result.len == utf8_enc_len(c)
@@ -215,10 +234,12 @@ package runtime
 //@ macro inbuf(a, p, eltSize): chanbuf(p) <= a && a < chanbuf(p) + uintptr(p.cap*eltSize)
 
 //@ func notifyOps
+//@ params p
 //@ trusted
 //@ modifies array(F!runtime_selectOp!sem)
 
 //@ func ChanLen
+//@ params p
 //@ props C10
 //@ arith int
 //@ lock Chan.mutex protects p.getp, p.len, p.close, p.sends, p.selsends, p.sops, p.data
@@ -228,11 +249,13 @@ package runtime
 //@ modifies nothing
 
 //@ func ChanCap
+//@ params p
 //@ props C10
 //@ ensures C10 cap: (p == nil ==> result == 0) && (p != nil ==> result == p.cap)
 //@ modifies nothing
 
 //@ func ChanSend
+//@ params p v eltSize
 //@ props C10 C03
 //@ arith int
 //@ opt panic_writes allowed
@@ -251,6 +274,7 @@ package runtime
 //@ modifies everything
 
 //@ func ChanClose
+//@ params p
 //@ props C10 C03
 //@ arith int
 //@ opt implicit_panics allowed
@@ -262,6 +286,7 @@ package runtime
 //@ modifies everything
 
 //@ func ChanTrySend
+//@ params p v eltSize
 //@ props C10 C03
 //@ arith int
 //@ opt panic_writes allowed
@@ -278,6 +303,7 @@ package runtime
 //@ modifies everything
 
 //@ func ChanRecv
+//@ params p v eltSize
 //@ props C10
 //@ arith int
 //@ lock Chan.mutex protects p.getp, p.len, p.close, p.sends, p.selsends, p.sops, p.data, bytes(chanbuf(p), p.cap*eltSize)
@@ -293,6 +319,7 @@ package runtime
 //@ modifies everything
 
 //@ func chanTryRecv
+//@ params p v eltSize acceptSelectSend
 //@ props C10
 //@ arith int
 //@ lock Chan.mutex protects p.getp, p.len, p.close, p.sends, p.selsends, p.sops, p.data, bytes(chanbuf(p), p.cap*eltSize)
@@ -307,6 +334,7 @@ package runtime
 //@ modifies everything
 
 //@ func NewChan
+//@ params eltSize cap
 //@ props C10
 //@ arith int
 //@ opt init yes
@@ -321,23 +349,27 @@ package runtime
 // finite-map refinement of the bucket code itself is not decided.
 
 //@ func tophash
+//@ params hash
 //@ props C06
 //@ ensures C06 ge: result >= minTopHash
 //@ ensures C06 value: (uint8(hash >> 56) >= minTopHash ==> result == uint8(hash >> 56)) && (uint8(hash >> 56) < minTopHash ==> result == uint8(hash >> 56) + minTopHash)
 //@ modifies nothing
 
 //@ func isEmpty
+//@ params x
 //@ props C06
 //@ ensures C06 def: result <==> (x == emptyRest || x == emptyOne)
 //@ modifies nothing
 
 //@ func bucketShift
+//@ params b
 //@ props C06
 //@ ensures C06 pow2: result == uintptr(1) << (b & 63)
 //@ ensures C06 nonzero: result != 0
 //@ modifies nothing
 
 //@ func bucketMask
+//@ params b
 //@ props C06
 //@ inline bucketShift
 //@ ensures C06 mask: result == (uintptr(1) << (b & 63)) - 1
@@ -345,12 +377,14 @@ package runtime
 //@ modifies nothing
 
 //@ func evacuated
+//@ params b
 //@ props C06
 //@ requires b != nil
 //@ ensures C06 def: result <==> (mem[b] > emptyOne && mem[b] < minTopHash)
 //@ modifies nothing
 
 //@ func overLoadFactor
+//@ params count B
 //@ props C06
 //@ inline bucketShift
 //@ ensures C06 small: count <= bucketCnt ==> !result
@@ -358,6 +392,7 @@ package runtime
 //@ modifies nothing
 
 //@ func tooManyOverflowBuckets
+//@ params noverflow B
 //@ props C06
 //@ ensures C06 def: result <==> (noverflow >= uint16(1) << min(B, 15))
 //@ modifies nothing
@@ -366,24 +401,28 @@ package runtime
 //@ macro f32hashspec(bits, h): f32frombits(bits) == 0 ? c1 * (c0 ^ h) : memhash32(bits, h)
 
 //@ func f64hash
+//@ params p h
 //@ props C06
 //@ requires p != nil
 //@ ensures C06 spec: !isnan(f64frombits(mem64[p])) ==> result == f64hashspec(mem64[p], h)
 //@ modifies nothing
 
 //@ func f32hash
+//@ params p h
 //@ props C06
 //@ requires p != nil
 //@ ensures C06 spec: !isnan(f32frombits(mem32[p])) ==> result == f32hashspec(mem32[p], h)
 //@ modifies nothing
 
 //@ func f64equal
+//@ params p q
 //@ props C06
 //@ requires p != nil && q != nil
 //@ ensures C06 spec: result <==> f64frombits(mem64[p]) == f64frombits(mem64[q])
 //@ modifies nothing
 
 //@ func f32equal
+//@ params p q
 //@ props C06
 //@ requires p != nil && q != nil
 //@ ensures C06 spec: result <==> f32frombits(mem32[p]) == f32frombits(mem32[q])
@@ -393,30 +432,35 @@ package runtime
 //@ lemma f32_hash_coherent: C06 forall x uint32, y uint32, h uintptr :: f32frombits(x) == f32frombits(y) ==> f32hashspec(x, h) == f32hashspec(y, h)
 
 //@ func isDirectIface
+//@ params t
 //@ props C06 C07
 //@ requires t != nil
 //@ ensures C06 def: result <==> (t.Kind_ & 32) != 0
 //@ modifies nothing
 
 //@ func c128hash
+//@ params p h
 //@ props C06
 //@ requires p != nil && p < 1<<48
 //@ ensures C06 spec: !isnan(f64frombits(mem64[p])) && !isnan(f64frombits(mem64[p + 8])) ==> result == f64hashspec(mem64[p + 8], f64hashspec(mem64[p], h))
 //@ modifies nothing
 
 //@ func c64hash
+//@ params p h
 //@ props C06
 //@ requires p != nil && p < 1<<48
 //@ ensures C06 spec: !isnan(f32frombits(mem32[p])) && !isnan(f32frombits(mem32[p + 4])) ==> result == f32hashspec(mem32[p + 4], f32hashspec(mem32[p], h))
 //@ modifies nothing
 
 //@ func c128equal
+//@ params p q
 //@ props C06
 //@ requires p != nil && q != nil
 //@ ensures C06 spec: result <==> (f64frombits(mem64[p]) == f64frombits(mem64[q]) && f64frombits(mem64[p + 8]) == f64frombits(mem64[q + 8]))
 //@ modifies nothing
 
 //@ func c64equal
+//@ params p q
 //@ props C06
 //@ requires p != nil && q != nil
 //@ ensures C06 spec: result <==> (f32frombits(mem32[p]) == f32frombits(mem32[q]) && f32frombits(mem32[p + 4]) == f32frombits(mem32[q + 4]))
@@ -426,12 +470,14 @@ package runtime
 // (equal seeds) and then to the imaginary part (equal inner hashes as seeds).
 
 //@ func strhash
+//@ params a h
 //@ props C06
 //@ requires a != nil
 //@ ensures C06 spec: result == memhashbytes(as(String, a).data, uintptr(as(String, a).len), h)
 //@ modifies nothing
 
 //@ func efaceeq
+//@ params t x y
 //@ props C06 C07
 //@ ensures C06 nil: t == nil ==> result
 //@ ensures C06 direct: t != nil && (t.Kind_ & 32) != 0 ==> (result <==> x == y)
@@ -439,6 +485,7 @@ package runtime
 //@ modifies nothing
 
 //@ func ifaceeq
+//@ params tab x y
 //@ props C06 C07
 //@ requires tab != nil ==> tab._type != nil
 //@ ensures C06 nil: tab == nil ==> result
@@ -447,6 +494,7 @@ package runtime
 //@ modifies nothing
 
 //@ func interhash
+//@ params p h
 //@ props C06
 //@ opt panic_writes allowed
 //@ requires p != nil && (as(iface, p).tab != nil ==> as(iface, p).tab._type != nil)
@@ -455,6 +503,7 @@ package runtime
 //@ modifies everything
 
 //@ func nilinterhash
+//@ params p h
 //@ props C06
 //@ opt panic_writes allowed
 //@ requires p != nil
@@ -463,6 +512,7 @@ package runtime
 //@ modifies everything
 
 //@ func (errorString).Error
+//@ params e
 //@ props C06 C03
 //@ modifies nothing
 
@@ -484,6 +534,7 @@ package runtime
 //@ macro umatch(T, a, V, b): mrank(T, a) == urank(uncommonof(V), b) && mtyp(T, a) == umtyp(uncommonof(V), b)
 
 //@ func Implements
+//@ params T V
 //@ props C07
 //@ arith int
 //@ requires T != nil && nmeth(T) >= 0 && nmeth(T) < 1<<30 && valid(itype(T).Methods.data, nmeth(T)*24)
@@ -508,6 +559,7 @@ package runtime
 //@ modifies nothing
 
 //@ func EfaceEqual
+//@ params v u
 //@ props C07
 //@ opt panic_writes allowed
 //@ ensures C07 nil: (v._type == nil || u._type == nil) ==> (result <==> v._type == u._type)
@@ -522,6 +574,7 @@ package runtime
 //@ macro fmatch(s, b, im): frank(s.data, b) == strrank(im.Name_) && s[b].Mtyp_ == im.Typ_
 
 //@ func findMethod
+//@ params mthds im
 //@ props C07
 //@ arith int
 //@ requires len(mthds) < 1<<30 && valid(mthds.data, len(mthds)*40) && fcoupled(mthds) && fsorted(mthds)
@@ -541,6 +594,7 @@ package runtime
 // consuming a set flag.
 
 //@ func (*selectOp).notify
+//@ params p
 //@ props C10
 //@ lock selectOp.mutex protects p.sem
 //@ requires p != nil
@@ -548,6 +602,7 @@ package runtime
 //@ modifies everything
 
 //@ func (*selectOp).wait
+//@ params p
 //@ props C10
 //@ lock selectOp.mutex protects p.sem
 //@ lock selectOp.mutex wait_invariant not-consumed-before-sleep: cs_new(p.sem) == cs_old(p.sem)
@@ -566,11 +621,13 @@ package runtime
 //@ macro issendset(m, ops): forall c uintptr :: (has(m, c) && m[c]) <==> exists i int :: 0 <= i && i < len(ops) && uintptr(ops[i].C) == c && c != 0 && ops[i].Send
 
 //@ func trySelectDir
+//@ params ops send acceptSelectSend sendChans
 //@ trusted
 //@ requires !send && acceptSelectSend ==> issendset(sendChans, ops)
 //@ modifies everything
 
 //@ func trySelect
+//@ params ops sendFirst sendChans
 //@ props C10
 //@ requires issendset(sendChans, ops)
 //@ modifies everything
@@ -581,22 +638,26 @@ package runtime
 // main function uses their contracts only.
 
 //@ func complexDivAbs
+//@ params x
 //@ props C02
 //@ ensures C02 abs: isnan(x) ? isnan(result) : result == fabs(x)
 //@ modifies nothing
 
 //@ func complexDivIsNaN
+//@ params x
 //@ props C02
 //@ ensures C02 def: result <==> isnan(x)
 //@ modifies nothing
 
 //@ func complexDivIsInf
+//@ params x
 //@ props C02
 //@ opt fp exact
 //@ ensures C02 def: result <==> isinf(x)
 //@ modifies nothing
 
 //@ func complexDivIsFinite
+//@ params x
 //@ props C02
 //@ ensures C02 def: result <==> (!isnan(x) && !isinf(x))
 //@ modifies nothing
@@ -609,6 +670,7 @@ package runtime
 //@ modifies nothing
 
 //@ func complexDivCopysign
+//@ params x y
 //@ props C02
 //@ opt fp exact
 //@ requires magnitude: !isnan(x) && !signbit(x)
@@ -616,11 +678,13 @@ package runtime
 //@ modifies nothing
 
 //@ func complexDivInf2one
+//@ params x
 //@ props C02
 //@ ensures C02 spec: fsame(result, cd_inf2one(x))
 //@ modifies nothing
 
 //@ func Complex128Div
+//@ params n m
 //@ props C02
 //@ ensures C02 real-part: fsame(real(result), c128div_re(real(n), imag(n), real(m), imag(m)))
 //@ ensures C02 imag-part: fsame(imag(result), c128div_im(real(n), imag(n), real(m), imag(m)))
@@ -632,6 +696,7 @@ package runtime
 // is covered by the bounded finite-map stand-in.
 
 //@ func mapassign
+//@ params t h key
 //@ props C03
 //@ opt prune yes
 //@ requires nilmap: h == nil
@@ -639,6 +704,7 @@ package runtime
 //@ ensures_panic C03 msg: panicmsg() == "assignment to entry in nil map"
 
 //@ func mapaccess1
+//@ params t h key
 //@ props C06
 //@ opt prune yes
 //@ requires nil-or-empty: h == nil || h.count == 0
@@ -647,6 +713,7 @@ package runtime
 //@ modifies nothing
 
 //@ func mapaccess2
+//@ params t h key
 //@ props C06
 //@ opt prune yes
 //@ requires nil-or-empty: h == nil || h.count == 0
@@ -655,6 +722,7 @@ package runtime
 //@ modifies nothing
 
 //@ func mapdelete
+//@ params t h key
 //@ props C06
 //@ opt prune yes
 //@ requires nil-or-empty: h == nil || h.count == 0
@@ -662,12 +730,14 @@ package runtime
 //@ modifies nothing
 
 //@ func mapclear
+//@ params t h
 //@ props C06
 //@ opt prune yes
 //@ requires nil-or-empty: h == nil || h.count == 0
 //@ modifies nothing
 
 //@ func MapLen
+//@ params h
 //@ props C06
 //@ ensures C06 len: h == nil ? result == 0 : result == h.count
 //@ modifies nothing
@@ -679,6 +749,7 @@ package runtime
 // encoderune's contract per rune (the concatenation over all runes is not stated).
 
 //@ func StringFromRunes
+//@ params rs
 //@ props C05
 //@ requires sane: len(rs) >= 0 && len(rs) <= 1<<40 && cap(rs) >= len(rs) && (len(rs) > 0 ==> valid(rs.data, len(rs)*4))
 //@ loop 1 invariant progress: -1 <= rangeindex && rangeindex < len(rs) && rangeindex + 1 <= index && index <= 4*(rangeindex+1)
@@ -689,6 +760,7 @@ package runtime
 //@ modifies nothing
 
 //@ func StringToRunes
+//@ params s
 //@ props C05
 //@ requires sane: len(s) >= 0 && len(s) <= 1<<40 && (len(s) > 0 ==> valid(s.data, len(s)))
 //@ loop 1 invariant progress: 0 <= i && i <= len(s) && index <= uint(i) && (i > 0 ==> index >= 1)
